@@ -1,2 +1,36 @@
+(* C20 — Hooks fire in well-formed start/stop pairs (path hooks: runOnAvailable/runOnUnavailable = "ready /
+   not ready", runOnOnline/runOnOffline, runOnDemand/runOnUnDemand). Only statements here.
+   EOpen k = the call of hooks.OnAvailable / OnOnline / OnDemand (which runs the start command),
+   EClose k = the call of the closure it returned (which stops it and launches the un-command). *)
 From Coq Require Import List ZArith.
-Require Import MTX.Model.PathSM.
+Require Import MTX.Lib.Trace MTX.Model.PathSM MTX.Proofs.PathSM MTX.Proofs.PathSM_Hooks MTX.Proofs.PathSM_Trace.
+Import ListNotations.
+Local Open Scope Z_scope.
+
+(* over the whole trace of any history (initialize() included), the executions of each pair strictly
+   alternate, each pair opened by the start hook *)
+Theorem C20_calls_alternate : forall cf ops k,
+  conf_ok cf = true -> alternates (cls_call k) (snd (run cf ops)).
+Proof. exact (c20_alternates true). Qed.
+Print Assumptions C20_calls_alternate.
+
+(* ... and the pair is open at the end exactly when the state says so: stream present (available),
+   onOfflineHook set (online), onUnDemandHook set (demand) *)
+Theorem C20_open_iff_state : forall cf ops k,
+  conf_ok cf = true ->
+  mon_run (alt_mon (cls_call k)) false (snd (run cf ops)) = Some (open_of k (fst (run cf ops))).
+Proof. exact (c20_calls true). Qed.
+Print Assumptions C20_open_iff_state.
+
+(* any open pair is closed when the path closes, and none is opened afterwards *)
+Theorem C20_closed_after_close : forall cf pre post k,
+  conf_ok cf = true -> alternates_closed (cls_call k) (snd (run cf (pre ++ Close :: post))).
+Proof. exact (c20_closed_after_close true). Qed.
+Print Assumptions C20_closed_after_close.
+
+(* non-vacuity: an on-demand history opens and closes all three pairs *)
+Example C20_example :
+  let cf := mkConf false false true 0 true true true true true true in
+  filter is_hook (snd (run cf [AddReader 1 1; AddPublisher 2 1; RemoveReader 1; TimerFire TPubClose; Close]))
+  = [EOpen HDemand; EOpen HAvail; EOpen HOnline; EClose HDemand; EClose HOnline; EClose HAvail].
+Proof. vm_compute. reflexivity. Qed.
